@@ -138,6 +138,9 @@ static inline void c02_deallocate(struct c02_allocator *a, ELEM *p, size_t n)
     g_dealloc_calls++;
 }
 
+/* C++ [expr.add]/5: nullptr - nullptr == 0 (undefined in C, cbmc flags it): `pos - m_data` on a vector without a block */
+static inline ptrdiff_t c02_ptr_diff(const ELEM *p, const ELEM *q) { return (!p && !q) ? 0 : p - q; }
+
 #include "c02_std_algo.h"
 
 /* goto-instrument --apply-loop-contracts havocs statics: every harness starts with c02_init(k, j) */
